@@ -24,6 +24,9 @@ R02b  root assembly.  Every ``return`` of ``BaseFileSegment.root_parse`` builds 
       one-element tuples wrapping a piece in a segment constructor, ``+``.  A local known to be
       empty on the path (``if not <local>``) contributes the equality of its two bounds.  The
       root match is limited to exactly the prefix that ends where the trailing piece starts.
+      A piece lying after the end of the root match and before the trailing non-code is, on its
+      path, known empty, the non-code prefix cut off by an ``is_code`` scan, or wrapped in an
+      ``UnparsableSegment`` (the unmatched remainder is never attached bare).
 R02c  PRS funnel.  In ``_parse_tokens`` every segment yielded by ``<parsed>.iter_unparsables()``
       is turned into a ``SQLParseError(segment=<it>)`` appended to the list returned next to the
       tree, on every path through the loop; a tree is only returned after that loop.  Every
@@ -40,7 +43,9 @@ R02e  greedy give-up arms.  (1) An ``UnparsableSegment`` child result built inli
       look-ahead bound (``len(segments)`` / ``trim_to_terminator(...)``) rather than at the end
       of an element match claims tokens nothing matched; it must be, or contain up to that very
       bound, an ``UnparsableSegment`` result — otherwise unmatched code sits in the tree without
-      a PRS error.
+      a PRS error.  (3) The forward skip over non-code that gives an unparsable section its start
+      begins at a position of the match, not one moved by a constant (a stepped-over token
+      would be neither matched nor unparsable).
 
 Not decided: ``MatchResult.apply``'s loop, ``append``/``wrap`` arithmetic, the matchers' own
 slices, that texts and positions of re-typed raw segments equal the lexed ones beyond the copy in
@@ -268,6 +273,7 @@ class _Tiler:
     def __init__(self, cfg, func, pname: str):
         self.cfg, self.func, self.pname = cfg, func, pname
         self.rd = cfg.reaching()
+        self.piece_expr = {}  # (lo, hi) -> (slice expression, statement)
 
     # -- points -----------------------------------------------------------------
     def vkey(self, name: ast.Name, at):
@@ -357,6 +363,7 @@ class _Tiler:
                     if p[0] == "x" and isinstance(e.slice.upper, (ast.UnaryOp, ast.Constant)):
                         raise _Unknown(f"constant / negative slice bound in {short(e, 50)}")
                     nhi = p if root else ("rel", lo, p)
+                self.piece_expr[(nlo, nhi)] = (e, at)
                 out.append(_Alt([(nlo, nhi, short(e, 40))], b.eqs, b.limits))
             return out
         if isinstance(e, ast.Tuple):
@@ -403,7 +410,8 @@ class _Tiler:
         """Equalities known at ``stmt``: a local slice known to be empty has equal bounds."""
         eqs = []
         for e, pol in self.cfg.conditions(stmt):
-            if pol or not isinstance(e, ast.Name):
+            e = _known_empty(e, pol)
+            if e is None:
                 continue
             try:
                 for a in self.alts(e, self.cfg.stmt_of(e)):
@@ -412,6 +420,22 @@ class _Tiler:
             except _Unknown:
                 pass
         return eqs
+
+
+def _known_empty(e, pol) -> Optional[ast.Name]:
+    """The local a branch condition shows to be empty: ``not X``, ``len(X) == 0`` taken, or
+    ``X`` / ``len(X) > 0`` / ``len(X) != 0`` / ``len(X) >= 1`` not taken."""
+    if isinstance(e, ast.UnaryOp) and isinstance(e.op, ast.Not):
+        e, pol = e.operand, not pol
+    if isinstance(e, ast.Name):
+        return None if pol else e
+    if isinstance(e, ast.Compare) and len(e.ops) == 1 and isinstance(e.left, ast.Call) and call_name(e.left) == "len" and len(e.left.args) == 1 and isinstance(e.left.args[0], ast.Name):
+        op, k = e.ops[0], const(e.comparators[0])
+        empty_when_true = (isinstance(op, ast.Eq) and k == 0) or (isinstance(op, ast.Lt) and k == 1) or (isinstance(op, ast.LtE) and k == 0)
+        empty_when_false = (isinstance(op, ast.Gt) and k == 0) or (isinstance(op, ast.NotEq) and k == 0) or (isinstance(op, ast.GtE) and k == 1)
+        if (pol and empty_when_true) or (not pol and empty_when_false):
+            return e.left.args[0]
+    return None
 
 
 def _find(uf, x):
@@ -444,7 +468,7 @@ def _r02b(chk, repo) -> None:
     rets = [r for r in walk_local(rp) if isinstance(r, ast.Return) and r.value is not None]
     chk.count("R02b.root_parse_returns", len(rets))
     chk.floor("R02b.root_parse_returns", 2)
-    n_alts = n_apply = 0
+    n_alts = n_apply = n_rem = 0
     for r in rets:
         v = r.value
         vs = [o.expr for o in origins(cfg, v, r)] if isinstance(v, ast.Name) else [v]
@@ -489,6 +513,21 @@ def _r02b(chk, repo) -> None:
                         tail = [p for p in ps if p[1] == END and p[0] != ZERO]
                         if tail and not same(limit, tail[-1][0]):
                             problems.append(f"the root match {txt} may consume tokens up to {_show_point(limit)} while the trailing piece {tail[-1][2]} starts at {_show_point(tail[-1][0])}")
+                # pieces between the end of the root match and the trailing non-code: tokens the
+                # root grammar did not match
+                k = max((i for i, p in enumerate(ps) if p[1][0] == "stop"), default=None)
+                if k is not None:
+                    for lo, hi, txt in ps[k + 1:]:
+                        if hi == END or _find(uf, hi) == _find(uf, END):
+                            break
+                        n_rem += 1
+                        ok = txt.startswith("UnparsableSegment(") or same(lo, hi) or _non_code_prefix(tiler, cfg, rp, (lo, hi))
+                        chk.require(
+                            ok, "R02b", c,
+                            f"the piece {txt} lies after the end of the root match, is not known to be empty on this path, is not the non-code prefix cut off by an "
+                            "'is_code' scan and is not wrapped in an UnparsableSegment: code the root grammar did not match sits in the file segment without a PRS error",
+                            detail="root_parse: unmatched remainder is empty, non-code or wrapped as unparsable" if ok else f"root_parse: unmatched remainder piece {_stable(txt)} is bare",
+                        )
                 desc = " + ".join(f"[{_show_point(l)}:{_show_point(h)}]" for l, h, _ in ps)
                 chk.require(
                     not problems, "R02b", c,
@@ -500,6 +539,41 @@ def _r02b(chk, repo) -> None:
     chk.floor("R02b.assemblies_checked", 3)
     chk.count("R02b.root_match_limits_checked", n_apply)
     chk.floor("R02b.root_match_limits_checked", 1)
+    chk.count("R02b.unmatched_remainder_pieces", n_rem)
+    chk.floor("R02b.unmatched_remainder_pieces", 2)
+
+
+def _non_code_prefix(tiler, cfg, f, key) -> bool:
+    """The piece is ``X[:i]`` where ``i`` is the variable of a ``for i in range(len(X))`` scan
+    that stops (``break``) at the first element with ``is_code``: everything before it is non-code."""
+    got = tiler.piece_expr.get(key)
+    if got is None:
+        return False
+    e, at = got
+    if e.slice.lower is not None or not isinstance(e.slice.upper, ast.Name) or not isinstance(e.value, ast.Name):
+        return False
+    i, x = e.slice.upper.id, e.value.id
+    loops = []
+    for d in cfg.reaching().defs_at(at, i):
+        if d.kind == "for":
+            loops.append(d.stmt)
+        elif not (d.kind == "assign" and const(d.value) == 0):
+            return False
+    if not loops:
+        return False
+    for l in loops:
+        l = l if isinstance(l, ast.For) else getattr(l, "node", l)
+        if not isinstance(l, ast.For) or l.orelse:
+            return False
+        it = l.iter
+        if not (isinstance(it, ast.Call) and call_name(it) == "range" and len(it.args) == 1 and norm(it.args[0]) == f"len({x})"):
+            return False
+        if len(l.body) != 1 or not isinstance(l.body[0], ast.If) or l.body[0].orelse:
+            return False
+        t = l.body[0]
+        if norm(t.test) != f"{x}[{i}].is_code" or len(t.body) != 1 or not isinstance(t.body[0], ast.Break):
+            return False
+    return True
 
 
 def _stable(text: str) -> str:
@@ -783,7 +857,7 @@ def _is_unparsable_result(repo, c: ast.Call) -> bool:
 
 
 def _r02e(chk, repo) -> None:
-    n_inline = n_flow = n_claim = n_unp = 0
+    n_inline = n_flow = n_claim = n_unp = n_start = 0
     for m in repo.iter_modules("src/sqlfluff/core/parser/"):
         if not m.relpath.startswith(GRAMMAR_PREFIXES) or "UnparsableSegment" not in m.text:
             continue
@@ -802,6 +876,17 @@ def _r02e(chk, repo) -> None:
                     continue
                 st = cfg.stmt_of(c)
                 stop_c = t.point(sl.args[1], st)
+                # (3) where the unparsable section starts: the forward skip over non-code begins at
+                # a position of the match itself, not at one moved by a constant
+                for sk, pos in _skip_starts(cfg, sl.args[0], st):
+                    n_start += 1
+                    off = _const_offset(cfg, pos, cfg.stmt_of(sk))
+                    chk.require(
+                        off is None, "R02e", sk,
+                        f"the UnparsableSegment result {short(sl, 40)} starts at the first code token searched from {short(pos, 40)}, "
+                        f"which is a position moved by a constant ({off}): the token(s) stepped over are neither matched nor inside the unparsable section",
+                        detail=f"{q}: unparsable section starts at the first code token after the matched part (no constant offset)",
+                    )
                 # (1a) nested inline in another result
                 par = getattr(c, "_parent", None)
                 outer = None
@@ -855,6 +940,8 @@ def _r02e(chk, repo) -> None:
     chk.count("R02e.inline_unparsable_children", n_inline)
     chk.count("R02e.collected_unparsable_children", n_flow)
     chk.count("R02e.unparsable_results_in_grammar_code", n_unp)
+    chk.count("R02e.unparsable_starts_from_forward_skip", n_start)
+    chk.floor("R02e.unparsable_starts_from_forward_skip", 1)
     # anchor only: grammar code builds UnparsableSegment results at all (how many of them are
     # children is what an edit may change, so that is not floored)
     chk.floor("R02e.unparsable_results_in_grammar_code", 2)
@@ -918,6 +1005,29 @@ def _r02e(chk, repo) -> None:
         )
     chk.count("R02e.claiming_results", n_claim)
     chk.floor("R02e.claiming_results", 1)
+
+
+SKIP_FORWARD = "skip_start_index_forward_to_code"
+
+
+def _skip_starts(cfg, e, at):
+    """(call, position argument) of every forward skip whose result ``e`` may hold at ``at``."""
+    exprs = [(e, at)] if not isinstance(e, ast.Name) else [(o.expr, o.stmt) for o in origins(cfg, e, at) if o.kind == "expr" and not o.path]
+    out = []
+    for x, _ in exprs:
+        if isinstance(x, ast.Call) and last_attr(x) == SKIP_FORWARD and len(x.args) >= 2:
+            out.append((x, x.args[1]))
+    return out
+
+
+def _const_offset(cfg, pos, at) -> Optional[str]:
+    """Text of the offending expression if ``pos`` is ``<something> +/- <constant>`` (directly or
+    through the single-assignment locals it is read from)."""
+    exprs = [pos] if not isinstance(pos, ast.Name) else [o.expr for o in origins(cfg, pos, at) if o.kind in ("expr", "aug") and isinstance(o.expr, ast.AST)]
+    for x in exprs:
+        if isinstance(x, ast.BinOp) and isinstance(x.op, (ast.Add, ast.Sub)) and (const(x.right) not in (None, 0) or const(x.left) not in (None, 0)):
+            return short(x, 40)
+    return None
 
 
 def _stop_on_paths(cfg, t: "_Tiler", start, goal, stop_expr) -> List[tuple]:
@@ -1026,7 +1136,31 @@ VARIANTS: List[Variant] = [
         "                    # Match up to the end.\n                    matched_idx = _stop_idx\n" + _TAIL_OLD.replace("                    # Match up to the end.\n                    matched_idx = _stop_idx\n", ""),
         "QUIET", None, "the parent's new end is assigned before the child is added (independent statements swapped)",
     ),
+    Variant(
+        "quiet-unmatched-tail-tested-by-length", FILESEG,
+        "        elif _unmatched:\n",
+        "        elif len(_unmatched) > 0:\n",
+        "QUIET", None, "the same emptiness test spelled with len()",
+    ),
+    Variant(
+        "quiet-forward-skip-from-a-named-position", SEQ,
+        "                _idx = skip_start_index_forward_to_code(segments, matched_idx, max_idx)\n                _stop_idx = skip_stop_index_backward_to_code(segments, max_idx, _idx)\n",
+        "                _search_from = matched_idx\n                _idx = skip_start_index_forward_to_code(segments, _search_from, max_idx)\n                _stop_idx = skip_stop_index_backward_to_code(segments, max_idx, _idx)\n",
+        "QUIET", None, "the position the skip starts from goes through a local",
+    ),
     # ---- breaking edits -------------------------------------------------------------------------
+    Variant(
+        "unmatched-tail-of-one-token-left-bare", FILESEG,
+        "        elif _unmatched:\n",
+        "        elif len(_unmatched) > 1:\n",
+        "R02b", "root_parse", "a single unmatched trailing token is attached to the file segment bare (seeded C02-2 has the same shape with another gate)",
+    ),
+    Variant(
+        "partial-match-unparsable-starts-one-late", SEQ,
+        "                _start_idx = skip_start_index_forward_to_code(\n                    segments, matched_idx, max_idx\n                )\n",
+        "                _start_idx = skip_start_index_forward_to_code(\n                    segments, matched_idx + 1, max_idx\n                )\n",
+        "R02e", "Sequence.match", "the first unmatched token is neither matched nor unparsable (seeded C02-1 does this in the greedy-tail arm)",
+    ),
     Variant(
         "non-code-filtered-before-parsing", LINTER,
         "                tuple(tokens),\n                fname=fname,\n",
